@@ -23,13 +23,14 @@ class Fatal(BaseException):
 class CallRec:
     """One synchronous call of a worker function (the point where an element becomes a coroutine)."""
 
-    __slots__ = ("req", "idx", "args", "kwargs", "raised", "task", "spawner", "opno")
+    __slots__ = ("req", "idx", "args", "kwargs", "raised", "task", "spawner", "opno", "uncallable")
 
     def __init__(self, req: "ReqM", idx: int, args: tuple, kwargs: dict, raised: bool, opno: int) -> None:
         self.req, self.idx, self.args, self.kwargs, self.raised = req, idx, args, kwargs, raised
         self.task: Optional[TaskM] = None
         self.spawner = None
         self.opno = opno
+        self.uncallable = False      # the element cannot even be unpacked into a call (func(*7), func(**[1])): TypeError before func runs
 
 
 class TaskM:
